@@ -217,6 +217,11 @@ def _check_rows(rep, repo, cons, body, rowlist, width, final_ok, role):
     rows = []
     early = []
     for s in body:
+        # rows built by a comprehension: `orders = [[a, b] for ...]` / `orders += [[...] for ...]`
+        if isinstance(s, (ast.Assign, ast.AugAssign)) and norm(s.targets[0] if isinstance(s, ast.Assign) else s.target) == rowlist \
+                and isinstance(s.value, ast.ListComp):
+            rows.append((s, [s.value.elt]))
+            continue
         for x in ast.walk(s):
             if isinstance(x, ast.Call) and isinstance(x.func, ast.Attribute) and x.func.attr == "append" and \
                     norm(x.func.value) == rowlist and x.args:
@@ -232,9 +237,8 @@ def _check_rows(rep, repo, cons, body, rowlist, width, final_ok, role):
                       f"in `{rowlist}`: the result is not the documented (L, {width}) integer table", repo.rel("utils", early[0]))
         return
     if not rows:
-        rep.violation("R2.order-rows", "utils.generate_orders_horton_order", role,
-                      f"branch appends no rows to `{rowlist}`", where)
-        return
+        raise AnalysisError(f"unrecognised idiom: branch {role} of generate_orders_horton_order builds its rows in a way the "
+                            f"checker does not know (no append / += / comprehension on `{rowlist}`)")
     bad = [r for _, rs in rows for r in rs if not (isinstance(r, ast.List) and len(r.elts) == width)]
     if bad:
         rep.violation("R2.order-rows", "utils.generate_orders_horton_order", role,
